@@ -6,7 +6,7 @@ from .vals import *  # noqa
 
 class Oblig:
     __slots__ = ("name", "kind", "formula", "pc", "lineno", "path", "note", "status", "solver", "ms", "model",
-                 "task", "reason")
+                 "task", "reason", "defs")
 
     def __init__(self, name, kind, formula, pc, lineno=None, path=None, note=""):
         self.name, self.kind, self.formula, self.pc = name, kind, formula, list(pc)
@@ -17,6 +17,7 @@ class Oblig:
         self.model = None
         self.task = None
         self.reason = ""
+        self.defs = []
 
 
 class Ctx:
@@ -42,6 +43,7 @@ class Ctx:
         self.max_paths = 4000
         self.ghost = {}             # task-level ghost objects (files, spec functions)
         self._defs = {}
+        self.defs = []              # definitional equalities of named compound terms (nonlinear products)
 
     # -- fresh symbols (deterministic per path) -------------------------------------------------
     def fresh(self, name, sort="int"):
@@ -68,13 +70,21 @@ class Ctx:
         c = self._defs.get(key)
         if c is None:
             c = self.fresh(hint, "int" if t.is_int() else "real")
-            self.assumptions.append(c == t)
+            self.defs.append(c == t)
+            # sign facts that survive when the definition is abstracted away (stage 1 of discharge)
+            if z3.is_mul(t):
+                fs = t.children()
+                self.assumptions.append(z3.Implies(z3.And(*[f >= 0 for f in fs]), c >= 0))
+                self.assumptions.append(z3.Implies(z3.And(*[f >= 1 for f in fs]), c >= 1))
             self._defs[key] = c
         return c
 
     # -- paths ----------------------------------------------------------------------------------
     def start_path(self, prefix):
         self._defs = {}
+        self.defs = []
+        from . import vals as _v
+        _v._DEFINER[0] = self.define
         self.pc = []
         self.trace = []
         self.prefix = list(prefix)
@@ -95,17 +105,24 @@ class Ctx:
             return
         self.pc.append(to_z3(f))
 
-    def _check(self, extra):
+    def _check(self, extra, full=False):
+        """Satisfiability of the path (+extra).  By default the definitions of named products are left out: the
+        query is an over-approximation, so 'unsat' is sound for pruning and anything else keeps the path."""
+        t = time.time()
         s = z3.Solver()
-        s.set("timeout", self.feas_timeout_ms)
+        s.set("timeout", self.feas_timeout_ms if not full else 10000)
         s.add(*self.assumptions)
         s.add(*self.pc)
         s.add(*extra)
-        t = time.time()
+        if full:
+            s.add(*self.defs)
         r = s.check()
         self.solver_s += time.time() - t
         self.n_feas += 1
         return r
+
+    def path_infeasible(self):
+        return self._check([], full=True) == z3.unsat
 
     def feasible(self, cond):
         r = self._check([cond])
@@ -169,6 +186,7 @@ class Ctx:
         if formula is False:
             formula = z3.BoolVal(False)
         o = Oblig(name, kind, formula, self.assumptions + self.pc, self.cur_lineno, list(self.trace), note)
+        o.defs = list(self.defs)
         self.obligs.append(o)
         return o
 
